@@ -55,7 +55,7 @@ def _nontrivial(op, impl):
 
 
 def correspond(ctx):
-    sessions = 40
+    sessions = 100
     c = vlib.correspond(ctx, 'c06', 'C06', ['sessions=%d' % sessions], timeout=1500, nontrivial=_nontrivial)
     c['name'] = 'ledger'
     viol = []
@@ -72,9 +72,9 @@ def search(ctx, hints):
         res['error'] = 'searcher build failed: ' + log[-1500:]
         return res
     broken = bool(hints.get('broken'))
-    n = 600
+    n = 1500
     if ctx.thorough():
-        n = 6000
+        n = 15000
     if broken:
         n *= 4
     cwd = ctx.scratch('c06s')
